@@ -162,6 +162,12 @@ impl Runtime {
             return false;
         }
         let line = Line::new(string);
+        if !line.is_direct() && line.to_string().len() > MAX_LINE_LEN {
+            // Keywords are listed in full (? becomes PRINT); a line that would list
+            // longer than the limit could not be edited, or loaded after a SAVE.
+            self.state = State::RuntimeError(error!(LineBufferOverflow));
+            return false;
+        }
         if line.is_direct() {
             if line.is_empty() {
                 false
